@@ -2,6 +2,7 @@ from numpy import array, ndarray, diagonal, diag, dot, eye, log, zeros
 from numpy.linalg import cholesky
 from scipy.linalg import solve, solve_triangular
 from scipy.optimize import minimize
+from copy import deepcopy
 from inspect import isclass
 
 from inference.gp.covariance import CovarianceFunction, SquaredExponential
@@ -115,13 +116,14 @@ class GpLinearInverter:
         self.y = y
 
         self.cov = prior_covariance_function
-        self.cov = self.cov() if isclass(self.cov) else self.cov
+        # an instance is copied, since it will hold this object's spatial data
+        self.cov = self.cov() if isclass(self.cov) else deepcopy(self.cov)
         self.cov.pass_spatial_data(parameter_spatial_positions)
         if self.cov.bounds is None:
             self.cov.bounds = [(None, None)] * self.cov.n_params
 
         self.mean = prior_mean_function
-        self.mean = self.mean() if isclass(self.mean) else self.mean
+        self.mean = self.mean() if isclass(self.mean) else deepcopy(self.mean)
         self.mean.pass_spatial_data(parameter_spatial_positions)
         if self.mean.bounds is None:
             self.mean.bounds = [(None, None)] * self.mean.n_params
